@@ -34,7 +34,7 @@ func main() {
 	case "C17":
 		chk := vcommon.NewCheck("C17", "exploration")
 		runC17(chk, thorough)
-		chk.Set("rule", "stores: first in {0,3} x length 1..7 (9) x 5 delta-shape patterns, checkpoint frequency 3, every export end point round-tripped with and without manifest; on full exports (thorough: all) every byte truncation, every dropped/duplicated/swapped block, surplus certificate, an empty block at every position (alone, then surplus / repeat / garbage), header and manifest disagreements (incl. the header table permuted or with a duplicated entry against a pinning manifest), altered deltas (final, intermediate, compensated); one 1445-certificate store with the production frequency")
+		chk.Set("rule", "stores: first in {0,3} x length 1..7 (9) x 5 delta-shape patterns, checkpoint frequency 3, every export end point round-tripped with and without manifest; on full exports (thorough: all) every byte truncation, every dropped/duplicated/swapped block, surplus certificate, an empty block at every position (alone, then surplus / repeat / garbage), header and manifest disagreements (incl. the header table permuted or with a duplicated entry against a pinning manifest), altered deltas (final, intermediate, compensated); one 1445-certificate store with the production frequency; one store with 8000 members")
 		chk.Assume("in-memory datastores; snapshots produced by the repository's own exporter")
 		chk.Finish()
 	default:
